@@ -31,7 +31,7 @@ CLAIMED.update({
 })
 CLAIMED.update({
  'C15': dict(section='8/C15', technique='Coq proof (receipt characterisation, exact events, collector-only outflow for every operation, collectFees relation, collector replacement) + differential correspondence of the real gas service in the Rust VM',
-   text='Theorems c15_received, c15_pay_event, c15_add_event, c15_zero_rejected, c15_pay_ledger, c15_refund, c15_collect (inductive relation: skipped above the current balance or transferred exactly), c15_collect_zero, c15_outflow (for every operation and caller the balance decreases only in collectFees/refund by the collector), c15_collector; endpoint/payable table, event names and struct field orders regenerated and pinned.',
+   text='Theorems c15_received, c15_pay_event, c15_add_event, c15_zero_rejected, c15_pay_ledger, c15_refund, c15_collect (inductive relation: skipped above the current balance or transferred exactly), c15_collect_zero, c15_outflow (for every operation and caller the balance decreases only in collectFees/refund by the collector), c15_collector; conservation (Proofs/GasConserve.v): c15_conserve_step and c15_conservation (for EVERY history of calls by accounts other than the service: balance = initial + all receipts - everything collectFees/refund moved to their receivers, per token), c15_out_needs_collector, c15_conservation_nonvacuous; endpoint/payable table, event names and struct field orders regenerated and pinned.',
    note='Trusted: Coq kernel; hand-written model tied by the correspondence (status, events, storage, balances on every step); gen_tables.py; harness.'),
 })
 CLAIMED.update({
@@ -42,7 +42,7 @@ CLAIMED.update({
    text='Theorems c12_execute_requires, c12_no_replay, c12_tables_frame, c12_operator_dispatch, c12_operator_callback, c12_cancelled_approval_stays_cancelled, c12_deadop_no_dispatch, c12_operator_change, c12_withdraw_self_only.',
    note='Trusted: as C11. Genuine defect F-C12-1 repaired by the same fix: commit.'),
  'C16': dict(section='8/C16', technique='Coq proof (credit arithmetic per token incl. repeated tokens, callback credits under any schedule, withdrawal exactness, frame) + differential correspondence + trace monitor',
-   text='Theorems c16_credit, c16_callback_credits, c16_withdraw, c16_frame: outstanding credits = attached to failed dispatches - withdrawn, per user and token.',
+   text='Theorems c16_credit, c16_callback_credits, c16_withdraw, c16_frame; histories (Proofs/GovCredits.v): c16_credits_step (all 9 operation kinds) and c16_credits_history (for EVERY history and schedule: outstanding credit of (caller, token, nonce) = initial + attached to failed dispatches by that caller - withdrawn by that caller), c16_withdrawn_owner_only.',
    note='Trusted: as C11.'),
 })
 ITS_NOTE = 'Trusted: Coq kernel; hand-written model of the ITS world (gateway, gas service, ITS, token managers, ledger, pending asynchronous work) tied to the code by the step-by-step correspondence; the external destination contract and the ESDT system contract are abstracted to outcomes; gas not modelled.'
